@@ -529,14 +529,6 @@ def expr_case(rng):
     return kind, toks, text
 
 
-_MULTIDIM = re.compile(r"\]\s*\[\s*\d+\s*\]\s+v\d+")
-
-
-def only_1d_arrays(src):
-    """avoid C10-multidim-elem-as-tagged-pointer: no declaration  T[n][m]... name"""
-    return not _MULTIDIM.search(src)
-
-
 def model_lines(sub, lines):
     rc, o, e = common.sh([common.model_bin(PROP), sub], input=("\n".join(lines) + "\n").encode(), timeout=900)
     if rc != 0:
@@ -753,14 +745,13 @@ def run(rep):
         import gen_core
         import langrun
         sx = []
-        for k in range(400 if quick else 5000):
+        for k in range(300 if quick else 5000):
             rng = rng_for(seed, "c10-core", k)
             g = gen_core.Gen(rng, gen_core.Opts(wide_lits=False))
             # avoid C10-shift-ub: shift operators are replaced (any count outside 0..63 / negative operand is UB in the evaluator)
             sx.append(g.program().replace("(bin << ", "(bin + ").replace("(bin >> ", "(bin - "))
         ms = langrun.model_run(sx)
-        core_srcs = [m for m in ms if m["expect"] not in ("undef", "nofuel") and "<<" not in m["src"] and ">>" not in m["src"]
-                     and only_1d_arrays(m["src"])]
+        core_srcs = [m for m in ms if m["expect"] not in ("undef", "nofuel") and "<<" not in m["src"] and ">>" not in m["src"]]
     except Exception as e:      # the shared CbCore tool chain is not mine; its absence must not fail C10
         rep.notes.append("CbCore generator unavailable (%s): execution half skipped" % str(e)[:200])
     for m in core_srcs:
